@@ -495,16 +495,16 @@ def block_adaptive(ctx, tm, psi):
         # at most ~12 accepted steps here
         tol = 400 * rtol * nv
         if not (e1 <= tol and e2 <= tol):
-            # classify: does the same call with a tiny initial guess (no rejected attempt) succeed?
+            # classify: does the same call succeed when the initial guess is so small that no
+            # attempt is ever rejected?
             sig = f"{nm}:adaptive-vs-dense"
-            if g > T:
-                try:
-                    small = evolve_n(psi, mpo, T, 1, dict(spec, guess_dt=T / 16), big)
-                    e_small = float(np.linalg.norm(dense_state(small) - ref))
-                    if e_small <= tol:
-                        sig = f"{nm}:adaptive:rejected-first-attempt:wrong-result"
-                except Exception:
-                    pass
+            try:
+                small = evolve_n(psi, mpo, T, 1, dict(spec, guess_dt=T / 64), big)
+                e_small = float(np.linalg.norm(dense_state(small) - ref))
+                if e_small <= tol:
+                    sig = f"{nm}:adaptive:after-rejected-attempt:wrong-result"
+            except Exception:
+                pass
             run.violation(sig, replay_base(tm, v0, spec, T=T, err_one_call=e1, err_two_calls=e2, tol=tol))
         gd = one.evolve_config.guess_dt
         if not (np.isfinite(abs(gd)) and abs(gd) > 0 and not np.iscomplex(gd)):
